@@ -1,8 +1,8 @@
 SPECIFICATION Spec
 CONSTANTS MaxArt = 3  MaxHist = 3  MaxCmd = 2  Sweep = "both"  GenDepth = 0
 CONSTANT Recs <- RecsTiny
-CONSTANT Shapes <- ShapesSmall
-CONSTANT ExprLists <- ExprListsSmall
+CONSTANT Shapes <- ShapesOne
+CONSTANT ExprLists <- ExprListsTwo
 VIEW viewL
-INVARIANT ReachStaleLimitClean
+INVARIANT ReachStaleLimitCleanShow
 CHECK_DEADLOCK FALSE
